@@ -33,7 +33,7 @@ def get_sim(name):
     raise HarnessError(f"unknown sim {name}")
 
 
-PROP_SIM = {"C09": "rewrite", "C10": "parser", "C12": "parser", "C17": "problems",
+PROP_SIM = {"C04": "rewrite", "C09": "rewrite", "C10": "parser", "C12": "parser", "C17": "problems",
             "C18": "layout"}
 
 
